@@ -9,7 +9,7 @@ package service
 @*/
 
 /*@ theory servicefilters
-;; theory filters k8s
+;; theory filters filtereq k8s
 ;; uses core/v1.ServiceSpec
 (declare-fun |F!core/v1.Service!Spec| (V) |S!core/v1.ServiceSpec|)
 (declare-fun |F!types/service.serviceForFilter!target| (V) V)
@@ -24,6 +24,12 @@ package service
        (submap (svc-sel o) (|F!types/service.serviceForFilter!target| f))))
 (assert (forall ((f V) (o V)) (! (=> (= (dyntype f) |ty!*types/service.serviceForFilter|)
     (= (accept f o) (svcForAccept f o))) :pattern ((accept f o)))))
+; C17 completeness: selector-match filters built from target maps with the same pairs
+(define-fun sameMap ((m V) (n V)) Bool
+  (forall ((k Str)) (and (= (select (|fdom!Str!Str| m) k) (select (|fdom!Str!Str| n) k))
+       (=> (select (|fdom!Str!Str| m) k) (= (select (|fval!Str!Str| m) k) (select (|fval!Str!Str| n) k))))))
+(assert (forall ((a V) (b V)) (! (=> (and (not (= a vnil)) (not (= b vnil)) (= (dyntype a) |ty!*types/service.serviceForFilter|) (= (dyntype b) |ty!*types/service.serviceForFilter|))
+    (= (bs a b) (sameMap (|F!types/service.serviceForFilter!target| a) (|F!types/service.serviceForFilter!target| b)))) :pattern ((bs a b)))))
 @*/
 
 /*@ func types/service.PodsFilter
@@ -64,7 +70,8 @@ package service
   props C19 C17
   theory servicefilters
   note the caller must not modify the target map afterwards (it is stored, not copied)
-  ensures [is-service-for-filter] (and (not (= result vnil)) (= (dyntype result) |ty!*types/service.serviceForFilter|))
+  ensures [is-service-for-filter] (and (not (= result vnil)) (= (dyntype result) |ty!*types/service.serviceForFilter|)
+        (= (|F!types/service.serviceForFilter!target| result) {target}))
   ensures [services-whose-selector-is-in-target] (forall ((o V)) (= (accept result o)
         (and (isService o) (mapNonEmpty (svc-sel o)) (mapNonEmpty {target}) (submap (svc-sel o) {target}))))
 @*/
@@ -82,4 +89,15 @@ package service
   theory servicefilters
   implements filter.ComparableFilter.Equals
   requires [recv] (not (= {f} vnil))
+@*/
+
+/*@ lemma C17-built-twice-SelectorMatchFilter
+  props C17
+  theory servicefilters
+  var target : V
+  call r1 := types/service.SelectorMatchFilter target
+  call r2 := types/service.SelectorMatchFilter target
+  call eq := filter.FiltersEqual r1 r2
+  prove [built-the-same-way] (bs r1 r2)
+  prove [compare-equal] eq
 @*/
